@@ -239,7 +239,9 @@ def apply_ghost(text, label, ghost, report):
                                         "assumed": [l.strip() for l in body if l.strip()]})
         elif kind == "blockhole":
             n, rest = arg.split(" ", 1)
-            anchor, fname, params, args, ret = [x.strip() for x in rest.split("|")]
+            fields = [x.strip() for x in rest.split("|")]
+            anchor, fname, params, args, ret = fields[:5]
+            tail = fields[5] if len(fields) > 5 else ""
             lines = text.split("\n")
             i = find_line(lines, anchor, int(n), label)
             off = sum(len(l) + 1 for l in lines[:i])
@@ -249,6 +251,7 @@ def apply_ghost(text, label, ghost, report):
                 raise Undecided("blockhole anchor has no '{' in %s: %s" % (label, anchor))
             cb = rustlex.match_brace(msk, ob)
             block = text[ob:cb + 1]
+            after_block = text[cb + 1:]
             nlines = block.count("\n") + 1
             if fname.startswith("return "):
                 fname = fname[7:].strip()
@@ -256,8 +259,14 @@ def apply_ghost(text, label, ghost, report):
             else:
                 text = text[:ob] + "{ %s(%s) }" % (fname, args) + text[cb + 1:]
             contract = "\n".join("    " + l.strip() for l in body if l.strip())
+            body_txt = dedent(block)
+            if tail:
+                # the block falls through to `tail`, the rest of the function after it (checked to be there)
+                if canon(tail) not in canon(after_block):
+                    raise Undecided("blockhole %s: expected `%s` after the holed block" % (fname, tail))
+                body_txt = "{\n" + body_txt + "\n" + tail + "\n}"
             extra_items.append("#[verifier::external_body]\nfn %s(%s) -> %s\n%s\n%s\n" % (
-                fname, params, ret, contract, dedent(block)))
+                fname, params, ret, contract, body_txt))
             report["holes"].append({"item": label, "kind": "block hole (body kept verbatim, unverified)", "fn": fname,
                                     "anchor": anchor, "lines": nlines,
                                     "assumed": [l.strip() for l in body if l.strip()]})
